@@ -396,6 +396,12 @@ impl<B> Flow<B, Await100> {
     /// * `Ok(n)` - `n` number of input bytes were consumed. Call `proceed()` next
     /// * `Err(e)` - some error that is not recoverable
     pub fn try_read_100(&mut self, input: &[u8]) -> Result<usize, Error> {
+        if !self.inner.await_100_continue {
+            // The wait is already over (100-continue consumed, or some other response seen).
+            // A caller looking again learns nothing new and must not record anything twice.
+            return Ok(0);
+        }
+
         // Try parsing a status line without any headers. The line we are looking for is:
         //
         //   HTTP/1.1 100 Continue\r\n\r\n
@@ -621,7 +627,11 @@ impl<B> Flow<B, RecvResponse> {
             .last()
             .cloned();
 
-        if response.headers().iter().has("connection", "close") {
+        let already_noted = self
+            .inner
+            .close_reason
+            .contains(&CloseReason::ServerConnectionClose);
+        if response.headers().iter().has("connection", "close") && !already_noted {
             self.inner
                 .close_reason
                 .push(CloseReason::ServerConnectionClose);
